@@ -229,9 +229,57 @@ func (pv *Prov) callResult(c *ssa.CallCommon, idx int) TypeSet {
 		case "fmt.Errorf":
 			return TypeSet{Top: true, TopWhy: "fmt.Errorf (*fmt.wrapError / *errors.errorString)"}
 		}
+		// a call of a function parameter of an unexported module function that is only ever called:
+		// what comes back is what one of the functions passed for it at those calls returns
+		if par, ok := c.Value.(*ssa.Parameter); ok && !c.IsInvoke() && pv.p.InModule(par.Parent()) {
+			if cands := paramFuncCandidates(pv.p, par); len(cands) > 0 {
+				var ts TypeSet
+				for _, cand := range cands {
+					ts.union(*pv.Result(cand, idx))
+				}
+				return ts
+			}
+		}
 		return TypeSet{Top: true, TopWhy: "result of " + nonEmpty(name, "a dynamic call")}
 	}
 	return *pv.Result(callee, idx)
+}
+
+// paramFuncCandidates: the module functions (named, closures, method values) passed for the function
+// parameter par at the calls of its function, when that function is only ever called directly; nil
+// when any argument is something else.
+func paramFuncCandidates(p *an.Prog, par *ssa.Parameter) []*ssa.Function {
+	owner := par.Parent()
+	idx := -1
+	for i, pp := range owner.Params {
+		if pp == par {
+			idx = i
+		}
+	}
+	sites, only := onlyCalled(p, owner)
+	if !only || idx < 0 || len(sites) == 0 {
+		return nil
+	}
+	var out []*ssa.Function
+	for _, s := range sites {
+		if idx >= len(s.Call.Args) {
+			return nil
+		}
+		var f *ssa.Function
+		switch a := an.Strip(s.Call.Args[idx]).(type) {
+		case *ssa.Function:
+			f = a
+		case *ssa.MakeClosure:
+			if f = boundMethodOf(a); f == nil {
+				f, _ = a.Fn.(*ssa.Function)
+			}
+		}
+		if f == nil || !p.InModule(f) || f.Blocks == nil {
+			return nil
+		}
+		out = append(out, f)
+	}
+	return out
 }
 
 func lookupType(p *an.Prog, pkg, name string) types.Type {
